@@ -141,9 +141,10 @@ def d_initalloc(rng: random.Random, f: F, bad: bool = False):
         x, y = rng.randint(0, W - w) + F(w, 2), rng.randint(0, H - h) + F(h, 2)
         rects = [[fl(x * u), fl(y * u), fl(w * u), fl(h * u)]]
         mods[f"S{i}"] = {"area": fl(w * h * u * u), "rectangles": rects}
-    if bad:
-        r = list(next(iter(mods.values()))["rectangles"][0])
-        mods["S0"]["rectangles"] = [r, [r[0], r[1], fl(F(r[2]) / 2), fl(F(r[3]) / 2)], [r[0], r[1], fl(F(r[2]) / 4), fl(F(r[3]) / 4)]]
+    if bad:   # the whole die and, again, its left half: every cell of the left half is covered twice
+        mods["S0"]["rectangles"] = [[fl(F(W, 2) * u), fl(F(H, 2) * u), fl(W * u), fl(H * u)],
+                                    [fl(F(W, 4) * u), fl(F(H, 2) * u), fl(F(W, 2) * u), fl(H * u)]]
+        mods["S0"]["area"] = fl(F(3, 2) * W * H * u * u)
     return {"die": f"{fl(W * u)!r}x{fl(H * u)!r}", "net": {"Modules": mods, "Nets": []}, "n": rng.randint(2, 6)}
 
 
